@@ -407,25 +407,25 @@ func opsIndexFields(o ref.Opts, f1, f2 string) {
 //verif:harness props=C12,C06,C04,C05,C13,C20 tier=quick bounds="state: 0-1 documents (x absent/nil/float from {-1.5,0,2.5}), indexes none|x|x+xy created before/after data, sibling collection sharing ids; op: Insert of a batch of 1-2 documents whose _id is missing (generated), empty, fresh valid, already stored, repeated in the batch, or malformed; full audit of the raw store afterwards"
 func H_ops_insert() { opsInsert(opValConc) }
 
-//verif:harness props=C12,C06,C04,C05 tier=thorough bounds="as H_ops_insert with symbolic float64 field values (0 or |x|>=2^-1000)"
+//verif:harness props=C12,C06 tier=thorough bounds="as H_ops_insert with symbolic float64 field values (0 or |x|>=2^-1000)"
 func H_ops_insert_sym() { opsInsert(opValSym) }
 
 //verif:harness props=C03,C06,C04,C05,C09,C13,C20 tier=quick bounds="state: 2 documents (x absent/nil/float from {-1.5,0,2.5}), indexes none|x|x+xy; ops: Delete(x <op> symbolic float64 literal), Delete(all), DeleteById(present id), DeleteById(absent id), DropCollection; audit + sibling collection untouched"
 func H_ops_delete() { opsDelete(opValConc) }
 
-//verif:harness props=C03,C06,C04,C05,C09 tier=thorough bounds="as H_ops_delete with symbolic float64 field values"
+//verif:harness props=C03,C06 tier=thorough bounds="as H_ops_delete with symbolic float64 field values"
 func H_ops_delete_sym() { opsDelete(opValSym) }
 
 //verif:harness props=C03,C06,C12,C04,C05,C20 tier=quick bounds="state: 2 documents (x absent/nil/float from {-1.5,0,2.5}), indexes none|x; ops: Update(x <op> symbolic literal, {x: symbolic float64}), UpdateFunc with a counting callback, UpdateById (present/missing), ReplaceById (matching/mismatching id), each rewriting the indexed and filtered field; audit"
 func H_ops_update() { opsUpdate(opValConc) }
 
-//verif:harness props=C03,C06,C12,C04,C05 tier=thorough bounds="as H_ops_update with symbolic float64 field values"
+//verif:harness props=C03,C12 tier=thorough bounds="as H_ops_update with symbolic float64 field values"
 func H_ops_update_sym() { opsUpdate(opValSym) }
 
 //verif:harness props=C14,C06,C04,C13,C20 tier=quick bounds="state: 1-2 documents (x absent/nil/float from {-1.5,0,2.5}; xy = string), index sets over {x, xy} (prefix-related names); ops: CreateIndex / DropIndex of x or xy (existing or missing), HasIndex, ListIndexes; then the sibling index still serves exact results (sort-only and filtered use); audit"
 func H_ops_index() { opsIndex(opValConc) }
 
-//verif:harness props=C14,C06 tier=thorough bounds="as H_ops_index with symbolic float64 field values"
+//verif:harness props=C14 tier=thorough bounds="as H_ops_index with symbolic float64 field values"
 func H_ops_index_sym() { opsIndex(opValSym) }
 
 //verif:harness props=C14,C06,C18 tier=quick bounds="as H_ops_index for the dotted pair n / n.a: documents whose n is an object {a: string, b: nil/float} or a plain value; indexes on n (keys whole objects) and on n.a (keys the member); create/drop either, the other keeps serving exact results; audit"
